@@ -74,6 +74,27 @@ pub async fn run(sink: &mut Sink, ss: &mut Streams) {
         let mut hist = vec!["special: create k=[1,2]".to_string()];
         merge_case(sink, &mut ss.mrg, &mut t, next(), &mut hist, &before, &st, &src, 1, true, &cf, "special-fail-fast").await;
     }
+    // the key is the second column of the source schema (Merger::extract_selections tests the first one)
+    {
+        let mut t = Tbl::create(int(2), &[r(&[-1, 1]), r(&[5, 2])], 1, false).await;
+        let before = t.layout().await.unwrap();
+        let st = MSettings { on: vec![1], scols: vec![0, 1], ncols: 2, wm: Wm::DoNothing, ins: true, ns: Ns::Keep, indexed: false };
+        let src = vec![r(&[-1, 7]), r(&[3, 8])];
+        let mut hist = vec!["special: create (a,k) = (NULL,1) (5,2)".to_string()];
+        let out = merge_case(sink, &mut ss.mrg, &mut t, next(), &mut hist, &before, &st, &src, 1, true, &cf, "special-key-second").await;
+        if let Some(Ok((o, s))) = out {
+            sink.notes.push(format!("key is the second column, DoNothing + InsertAll, source (N,7) (3,8): rows after = {} inserted={} (SQL MERGE inserts both)", fmt_rows(&o.rows), s.0));
+        }
+        let mut t = Tbl::create(int(2), &[r(&[-1, 1]), r(&[5, 2]), r(&[6, 3])], 1, false).await;
+        let before = t.layout().await.unwrap();
+        let st = MSettings { on: vec![1], scols: vec![0, 1], ncols: 2, wm: Wm::UpdateAll, ins: false, ns: Ns::Delete, indexed: false };
+        let src = vec![r(&[9, 3])];
+        let mut hist = vec!["special: create (a,k) = (NULL,1) (5,2) (6,3)".to_string()];
+        let out = merge_case(sink, &mut ss.mrg, &mut t, next(), &mut hist, &before, &st, &src, 1, true, &cf, "special-key-second").await;
+        if let Some(Ok((o, s))) = out {
+            sink.notes.push(format!("key is the second column, UpdateAll + Delete, source (9,3): rows after = {} deleted={} (SQL MERGE: (9,3) only, deleted=2)", fmt_rows(&o.rows), s.2));
+        }
+    }
     // UPDATE SET a = b, b = a
     {
         let mut t = Tbl::create(int(3), &[r(&[1, 10, 20]), r(&[2, 30, 40])], 1, false).await;
